@@ -271,7 +271,55 @@ func (g *Gen) script(ci int, self common.Address, maxInit int, isInit bool) Scri
 			s = append(s, Act{Kind: "c", To: callee(), Val: big.NewInt(0)})
 		}
 	}
-	return s
+	return g.repeatCalls(self, s)
+}
+
+// repeatCalls: with some probability call a callee of the script a second (third) time, with value on
+// the later call, so that whatever the callee did the first time (SELFDESTRUCT in particular) is done again
+// on a balance that arrived in between.
+func (g *Gen) repeatCalls(self common.Address, s Script) Script {
+	if !g.r.Chance(2, 5) {
+		return s
+	}
+	var idx []int
+	for i, a := range s {
+		if a.Kind == "c" || a.Kind == "ac" {
+			idx = append(idx, i)
+		}
+	}
+	if len(idx) == 0 {
+		return s
+	}
+	i := idx[g.r.Intn(len(idx))]
+	times := g.r.Pick(1, 1, 2)
+	out := append(Script{}, s[:i+1]...)
+	for t := 0; t < times; t++ {
+		v := []*big.Int{big.NewInt(1), rpg(1), new(big.Int).Div(g.w.adb.GetBalance(self), big.NewInt(3)), big.NewInt(0)}[g.r.Intn(4)]
+		out = append(out, Act{Kind: "c", To: s[i].To, Val: v})
+	}
+	out = append(out, s[i+1:]...)
+	return out
+}
+
+// bomb: a contract that (after at most one other action) self-destructs; beneficiary is another account,
+// itself, a contract that calls it, or an unfunded address.
+func (g *Gen) bomb(ci int, self common.Address) Script {
+	var s Script
+	if g.r.Chance(1, 3) {
+		s = append(s, Act{Kind: "c", To: g.pickEOA(), Val: g.smallValue(self)})
+	}
+	var ben common.Address
+	switch g.r.Intn(5) {
+	case 0, 1:
+		ben = self
+	case 2:
+		ben = contracts[g.r.Intn(ci+1)] // itself or a (potential) caller
+	case 3:
+		ben = outsiders[g.r.Intn(len(outsiders))]
+	default:
+		ben = g.pickEOA()
+	}
+	return append(s, Act{Kind: "sd", To: ben})
 }
 
 // selfDestructReach reports whether running code at `a` can reach a SELFDESTRUCT (conservatively).
@@ -327,6 +375,9 @@ func (g *Gen) setup(withContracts bool) {
 	// lower ids; K0..K2 may call higher-indexed contracts and create anything.
 	install := func(i int, maxInit int) {
 		sc := g.script(i, contracts[i], maxInit, false)
+		if i >= 3 && g.r.Chance(1, 2) {
+			sc = g.bomb(i, contracts[i])
+		}
 		for w.scriptCost(sc, 0) > maxScriptCost {
 			sc = sc[:len(sc)-1]
 		}
@@ -433,7 +484,7 @@ func (g *Gen) lockTx() {
 	w := g.w
 	src := g.pickEOA()
 	bal := new(big.Int).Div(w.adb.GetBalance(src), oneRPG).Uint64()
-	n := uint64(g.r.Pick(0, 1, 399, 400, 401, 1999, 2000, 2001))
+	n := uint64(g.r.Pick(0, 399, 400, 400, 401, 1999, 2000, 2000, 2001))
 	switch g.r.Intn(4) {
 	case 0:
 		n = bal
@@ -443,6 +494,10 @@ func (g *Gen) lockTx() {
 		if bal > 0 {
 			n = bal - 1
 		}
+	}
+	if w.srcInQueue(src) {
+		g.operatorTx()
+		return
 	}
 	apply := g.r.Chance(2, 3) || len(w.miners) == 0
 	// a pending (same block) apply for this account makes the registry outcome order-dependent: keep one per block
@@ -456,6 +511,53 @@ func (g *Gen) lockTx() {
 		spoil = 1 + g.r.Intn(2)
 	}
 	w.QueueLock(g, src, n, apply, spoil)
+}
+
+// srcInQueue: the address is the sender of a queued lock/node transaction of the current block
+// (their registry outcomes would depend on each other; keep one per sender and block)
+func (w *World) srcInQueue(a common.Address) bool {
+	for _, q := range w.queue {
+		if (q.feat["lock"] || q.feat["node"]) && common.HexToAddress(q.tx.Source) == a {
+			return true
+		}
+	}
+	return false
+}
+
+// nodeTx: OperatorNode transaction, mostly from an account that owns a miner.
+func (g *Gen) nodeTx() {
+	w := g.w
+	src := g.pickEOA()
+	if len(w.miners) > 0 && g.r.Chance(4, 5) {
+		src = w.miners[g.r.Intn(len(w.miners))].account
+	}
+	if w.srcInQueue(src) {
+		g.operatorTx()
+		return
+	}
+	w.QueueNode(src)
+}
+
+// after: an empty block run through VMExecutor.after — mostly the next height, sometimes jumping to (just
+// before / exactly) the next reward height, where everything escrowed so far is paid out.
+func (g *Gen) after() {
+	w := g.w
+	rb := common.GetRewardBlocks()
+	h := w.height + 1
+	next := ((h + rb - 1) / rb) * rb
+	switch g.r.Intn(4) {
+	case 0:
+		h = next
+	case 1:
+		if next > h+1 {
+			h = next - 1
+		}
+	}
+	castor := []byte{0xca, 0x57}
+	if len(w.miners) > 0 && g.r.Bool() {
+		castor = w.miners[g.r.Intn(len(w.miners))].id
+	}
+	w.After(h, castor)
 }
 
 func (g *Gen) refund() {
@@ -601,6 +703,21 @@ func (g *Gen) contractTx(first bool) {
 	default:
 		t := contracts[g.r.Intn(len(contracts))]
 		c.Target = &t
+	}
+	if !first && g.r.Chance(2, 5) {
+		// call again what an earlier transaction of this block called (it may have self-destructed: the
+		// account keeps its code until the block is finalised), this time with value
+		for i := len(w.queue) - 1; i >= 0; i-- {
+			t := strings.Fields(w.queue[i].line)
+			if w.queue[i].isCt && t[6] != "-" {
+				a := parseAddr(t[6])
+				c.Target = &a
+				c.Eth = false
+				c.BadJSON = false
+				c.Value = []string{"1", "0.5", "0.000000000000000001", "2"}[g.r.Intn(4)]
+				break
+			}
+		}
 	}
 	if c.Target != nil && w.authC != nil && *c.Target == *w.authC {
 		if w.authUsed {
